@@ -2,12 +2,10 @@
 
 use proptest::prelude::*;
 
-use crate::gen::*;
 use crate::props::c15::sample_of;
 use crate::rt::*;
 use crate::simmon::{monitor, Stats, Violation};
 use crate::simrun::*;
-use crate::spec::*;
 
 pub struct C16;
 pub struct C17;
